@@ -77,7 +77,7 @@ func main() {
 	D, E := 2, 1
 	budget := 100 * time.Second
 	if run.Thorough() {
-		D, E = 3, 2
+		D, E = 3, 1
 		budget = 15 * time.Minute
 	}
 	run.Set("delay_bound", D)
@@ -90,7 +90,7 @@ func main() {
 			}
 			return sched.Bounds{Preemptions: -1, Delays: D, EnvDev: E}
 		},
-		Judge:  judge,
+		Judge: judge,
 		NonTrivial: func(w *sess.World) bool {
 			for _, f := range w.Srv.Frames {
 				if f.Rejected {
